@@ -12,11 +12,19 @@ type listAsciiPropertyReader struct {
 }
 
 func (lpr *listAsciiPropertyReader) Read(line []string) (offset int, err error) {
+	if len(line) == 0 {
+		return -1, errors.New("list property is missing its count")
+	}
+
 	v, err := strconv.ParseInt(line[0], 10, 32)
 	if err != nil {
 		return -1, err
 	}
 	lpr.lastReadListSize = int32(v)
+
+	if v < 0 || len(line) < int(v)+1 {
+		return -1, errors.New("list property contains fewer entries than its count")
+	}
 
 	// Resize to fit contents
 	if len(lpr.buf) < int(lpr.lastReadListSize) {
